@@ -175,8 +175,7 @@ c("c16_second_parser", ["C16.a"], "add_special_fields parses SINCE with chrono d
 c("c17a_new_unwrap", ["C17.a1"], "a grammar action unwraps a parse again",
   [("src/command/parser/commands/query.rs",
     "                n.parse::<u32>()\n                    .map(Clause::Limit)\n                    .map_err(|_| \"LIMIT value out of range\")\n            }",
-    "                Ok(Clause::Limit(n.parse::<u32>().unwrap()))\n            }"),
-   ("src/command/parser/commands/query.rs", "ci(\"LIMIT\") _ n:integer() {?", "ci(\"LIMIT\") _ n:integer() {? let r: Result<Clause, &'static str> =")])
+    "                let r: Result<Clause, &'static str> = Ok(Clause::Limit(n.parse::<u32>().unwrap()));\n                r\n            }")])
 c("c17b_dispatcher_unreachable", ["C17.b", "C17.a2"], "dispatcher wildcard arm panics again",
   [("src/command/dispatcher.rs",
     "            let resp = Response::error(StatusCode::BadRequest, \"Unsupported command\");\n            writer.write_all(&renderer.render(&resp)).await?;\n            writer.flush().await?;\n            Ok(())",
